@@ -269,7 +269,12 @@ func (cfg *Config) VMOpts() []vm.Option {
 		importer = newLocalImporter(names, cfg.localImportPath)
 	}
 	opts = append(opts, vm.WithImporter(importer))
-	opts = append(opts, vm.WithOS(cfg.os))
+	// The OS is the exception: a configuration that names none leaves the VM
+	// the one it has (given when it was made, or by an earlier evaluation).
+	// Taking it away would send the script to the OS of the process
+	if cfg.os != nil {
+		opts = append(opts, vm.WithOS(cfg.os))
+	}
 	if cfg.withConcurrency {
 		opts = append(opts, vm.WithConcurrency())
 	} else {
